@@ -224,6 +224,8 @@ class FaultMonitor(Monitor):
                 ref = ins.get("customerOrderRef")
                 if plan.get("transport") in ("conn_after", "http503", "badjson", "aping") or resp is None:
                     out.add(ref)
+                elif i >= len(resp["result"]["instructionReports"]):
+                    out.add(ref)  # DUPLICATE_TRANSACTION answer to a re-submission: no per-instruction verdict
                 elif resp["result"]["instructionReports"][i]["status"] == "TIMEOUT":
                     out.add(ref)
                 elif request["params"].get("async"):
